@@ -14,7 +14,8 @@ class C10(F.PropCheck):
     pid = 'C10'; gen_groups = ['RsConsts']; prop_file = 'Properties_C10'
     IN = {'CFG': 0, 'CB': 1, 'TASK': 2, 'RELAY': 3, 'RECAL': 4}
     OUT = {0: 'ST', 1: 'REPORT', 2: 'GPIO'}
-    quick_cases = 700; thorough_cases = 30000
+    quick_cases = 700; thorough_cases = 1000            # thorough: 1000 cases through the framework + batches (extra_quick)
+    thorough_batches = 30; batch_size = 500
     trusted_extra = ['C10 driver harness/drv/c10.c: real supla_esp_gpio_init, relay_hi, rs_set_relay + delayed-trigger os_timer (fired by the timer double), '
                      'add_task, rs_timer_cb (task processing, auto-calibration, 10-minute rule), supla_esp_calcfg_request; timer callback called directly '
                      'at scripted times, time burnt by os_delay_us inside an event is discarded at its end; motor sensor = harness board double',
@@ -174,7 +175,17 @@ class C10(F.PropCheck):
             evs += self.ticks(rng, rng.choice([20000, 200000, 1000000, 3000000]), rng.choice(['exact10', 'jitter', 'mixed']), rng.choice([0, 1, 2, 3]), maxn=400)
         return evs, ['random', 'type%d' % ttype]
 
-    def gen_cases(self, rng, n, tier):
+    def extra_quick(self, ctx):
+        if ctx['tier'] != 'thorough' or ctx['iexe'] is None: return
+        import random
+        def maker(b): return lambda: self.gen_cases(random.Random(ctx['seed'] * 7919 + 104729 * (b + 1)), self.batch_size, 'thorough', prefix='b%d_' % b)
+        makers = [maker(b) for b in range(self.thorough_batches)]
+        ex = self.exhaustive_pairs()
+        def chunk(lo): return lambda: [self.pair_case(*a) for a in ex[lo:lo + 1000]]
+        makers += [chunk(lo) for lo in range(0, len(ex), 1000)]
+        C09MOD.run_batches(self, ctx, makers, 'batched_thorough')
+
+    def gen_cases(self, rng, n, tier, prefix=''):
         fams = [(self.fam_task_rs, 30), (self.fam_manual, 12), (self.fam_ten_minutes, 3), (self.fam_autocal, 12), (self.fam_autocal_stuck, 2), (self.fam_interrupt, 12),
                 (self.fam_fb, 10), (self.fam_random, 21)]
         tot = sum(w for _, w in fams); cases = []
@@ -184,20 +195,25 @@ class C10(F.PropCheck):
                 if x < w: break
                 x -= w
             evs, tags = f(rng, tier)
-            cases.append(F.Case('%s%d' % (tier[0], i), evs, tags))
-        if tier == 'thorough':
-            # all (start, target) pairs 0..100 x 0..100 on a 2 s shutter with exact 10 ms callbacks, and a 7 x 7 grid for the other
-            # travel times / margins (17.3 s, 60 s with 30 ms callbacks to keep the case length bounded)
-            for full, dt, margins, grid in ((2000, 10000, (5,), range(0, 101)), (500, 10000, (-1, 0, 50), range(0, 101, 16)),
-                                            (17300, 10000, (-1, 0, 5, 50, 100), range(0, 101, 16)), (60000, 30000, (5, 100), range(0, 101, 25))):
-                for m in margins:
-                    for a in grid:
-                        for b in grid:
-                            evs = [self.cfg(margin=m, pos0=100 + 100 * a, t1=full, t2=full)] + [('CB', [dt, 0], b'')] * 3 + [('TASK', [b, -1], b'')]
-                            need = abs(a - b) * full * 10 + full * 1000 * (110 if m < 0 else max(m, 5)) // 100 + 1300000
-                            evs += [('CB', [dt, 0], b'')] * (need // dt + 3)
-                            cases.append(F.Case('tX%d_%d_%d_%d' % (full, m, a, b), evs, ['exhaustive-pairs', 'full%d' % full, 'margin%d' % m]))
+            cases.append(F.Case('%s%s%d' % (prefix, tier[0], i), evs, tags))
         return cases
+
+    def exhaustive_pairs(self):
+        """all (start, target) pairs 0..100 x 0..100 on a 2 s shutter with exact 10 ms callbacks, and a 7 x 7 grid for the other travel
+        times / margins (17.3 s, 60 s with 30 ms callbacks to keep the case length bounded); thorough tier, in chunks"""
+        r = []
+        for full, dt, margins, grid in ((2000, 10000, (5,), range(0, 101)), (500, 10000, (-1, 0, 50), range(0, 101, 16)),
+                                        (17300, 10000, (-1, 0, 5, 50, 100), range(0, 101, 16)), (60000, 30000, (5, 100), range(0, 101, 25))):
+            for m in margins:
+                for a in grid:
+                    for b in grid: r.append((full, dt, m, a, b))
+        return r
+
+    def pair_case(self, full, dt, m, a, b):
+        evs = [self.cfg(margin=m, pos0=100 + 100 * a, t1=full, t2=full)] + [('CB', [dt, 0], b'')] * 3 + [('TASK', [b, -1], b'')]
+        need = abs(a - b) * full * 10 + full * 1000 * (110 if m < 0 else max(m, 5)) // 100 + 1300000
+        evs += [('CB', [dt, 0], b'')] * (need // dt + 3)
+        return F.Case('tX%d_%d_%d_%d' % (full, m, a, b), evs, ['exhaustive-pairs', 'full%d' % full, 'margin%d' % m])
 
     # ---------------- monitor: the property text on the implementation trace (GPIO edges, stored/reported position, flags)
     def timeline(self, case, outs):
@@ -227,8 +243,10 @@ class C10(F.PropCheck):
         def judge(which, t_end, still_on):
             since = t_end - max(rise[which], last_cmd)
             kn, need, ae = info[which]
-            # ten minutes + one reporting period + one callback interval; a calibrated move may take its travel time + end-stop margin
-            bound = max(600_000_000 + 200_000 + 2 * maxdt, need + 1_200_000 + 2 * maxdt)
+            # uncalibrated / auto-calibration: ten minutes + one reporting period (200 ms) + callback granularity (C10_bounded_power_uncalibrated);
+            # calibrated: travel time to the end stop + max(end-stop margin, one position unit + 2 us) (C10_bounded_power_calibrated),
+            # + callback granularity on both ends + the 10.02 ms busy-wait of the relay operation that stamps the falling edge
+            bound = max(600_000_000 + 200_000 + 2 * maxdt, need + 2 * maxdt + 20_040)
             if since > bound:
                 v.append('output %s energised for %d us without a new command%s (bound %d us) [calibrated=%d autocal_enabled=%d excess=%d maxdt=%d]' %
                          ('up' if which == 2 else 'down', since, ', still on at the end of the trace' if still_on else '', bound, int(kn), int(ae), since - bound, maxdt))
@@ -241,8 +259,8 @@ class C10(F.PropCheck):
                         full = (prev['time1'] if which == 2 else prev['time2']) or (prev['aot'] if which == 2 else prev['act'])
                         kn = known(prev['pos']) and full > 0 and prev['step'] == 0
                         rem = (prev['pos'] - 100) if which == 2 else (10100 - prev['pos'])
-                        mpc = 110 if not (0 <= margin <= 100) else margin
-                        info[which] = (kn, (rem * full * 1000 // 10000 + full * 1000 * max(mpc, 50) // 100) if kn else 0,
+                        km = 110 if not (0 <= margin <= 100) else margin          # supla_esp_gpio_rs_set_time_margin
+                        info[which] = (kn, (rem * full * 1000 // 10000 + max(1000 * (full * km // 100), full * 1000 // 10000 + 2)) if kn else 0,
                                        bool(af and prev['time1'] == 0 and prev['time2'] == 0))
                     elif rise[which] is not None:
                         judge(which, tg, False); rise[which] = None
@@ -280,9 +298,22 @@ class C10(F.PropCheck):
                 raw0 = before['pos'] - 100
                 full = full_o if target * 100 < raw0 else full_c
                 travel = abs(raw0 - target * 100) * full * 1000 // 10000
-                mpc = 5 if not (0 <= margin <= 100) else margin
-                allow = travel + (full * 1000 * max(mpc, 50) // 100 if target in (0, 100) else 0) + 1_100_000 + (1_300_000 + full * 10 if busy else 0)
                 tau = max([x[0][1][0] for x in tl[i0 + 1:] if x[0][0] == 'CB'] or [0])
+                sensed = any(x[0][0] == 'CB' and x[0][1][1] != 0 for x in tl[i0 + 1:])
+                # Time allowance = what the code legitimately adds to the travel time (C10_converges_rs; exact, term by term):
+                #   1.001 s start delay after a recent stop (RS_START_DELAY + 1 ms), also after switching the opposite output off;
+                #   waiting at an end stop while the task margin lasts: min(end-stop margin of move_position, task margin of
+                #   task_processing) - only when the run ends at an end stop (target 0 / 100 or a coarse tick overshooting to it);
+                #   one position unit + 2 us of carried time; callback granularity: the task is picked up by the next callback, the
+                #   first callback accounts a whole interval, the stop is decided at a callback (3 tau); + 1 tau of drift when the task
+                #   arrives while the motor runs or a trigger is pending.
+                km = 110 if not (0 <= margin <= 100) else margin
+                tm = km if km < 110 else 5
+                if sensed and km < 50: tm = 50
+                at_end = target in (0, 100) or tl[-1][3]['pos'] in (100, 10100)
+                wait = min(1000 * (full * km // 100), tm * 10 * full) if at_end else 0
+                #   10.04 ms: the two relay operations of the final switch-off stamp the falling edge after their busy-waits.
+                allow = travel + wait + (full * 1000 // 10000 + 2) + 1_001_000 + 3 * tau + 3 + (tau if busy else 0) + 10_040
                 # supla_esp_gpio_rs_add_task returns at once when the requested position equals the current reported one, also
                 # while another task is still pending or running: the earlier task goes on (classified separately)
                 ign = int(before['task_state'] != 0 and rep(before['pos']) == target)
@@ -290,16 +321,48 @@ class C10(F.PropCheck):
                 falls = [tg for (_, _, edges, _) in tl[i0:] for (tg, which, lev) in edges if which in (1, 2) and lev == 0]
                 settled = not last['up_on'] and not last['down_on'] and last['delayed'] == 0
                 if not settled:
-                    if t_last - t_task > allow + 3 * tau:
+                    if t_last - t_task > allow:
                         v.append('task to %d %% from raw position %d (travel time %d ms): after %d us the outputs are %d%d (delayed start pending %d), position %d (allowed %d us) [tau=%d full=%d ignored=%d]' %
                                  (target, raw0, full, t_last - t_task, last['up_on'], last['down_on'], last['delayed'], last['pos'], allow, tau, full, ign))
                 else:
                     t_end = max(falls) if falls else t_task
-                    if t_end - t_task > allow + 3 * tau:
+                    if t_end - t_task > allow:
                         v.append('task to %d %% from raw position %d ended after %d us, allowed %d us [tau=%d full=%d ignored=%d]' % (target, raw0, t_end - t_task, allow, tau, full, ign))
                     if abs(rep(last['pos']) - target) > 1:
                         v.append('task to %d %% from raw position %d ended at position %d (reported %d): more than one point off [tau=%d full=%d ignored=%d]' %
                                  (target, raw0, last['pos'], rep(last['pos']), tau, full, ign))
+        # ---- (4) convergence of a task on a facade blind (tilt types 1..3), from rest, last command of the case.
+        # Judged against the target add_task stored (it rewrites the request for type 3 and inherits -1 fields): the task ends
+        # (outputs off, no trigger pending, task state inactive), the reported tilt is within one point of the tilt target and the
+        # reported position within one point + the travel that tilting costs (100 * tilt time / travel time points) of the position target.
+        # Outside the clause: AdditionalTimeMargin 0 (set_relay refuses to start towards an end stop the shutter already reports, so a
+        # tilt correction there is impossible by design); a tilt time below 200 callback intervals is the coarse-tick class.
+        if ttype in (1, 2, 3) and tilt_ms > 0 and margin != 0 and idx and tl[idx[-1]][0][0] == 'TASK' and idx[-1] > 0:
+            i0 = idx[-1]; (e, t_task, _, st0) = tl[i0]; before = tl[i0 - 1][3]
+            full_o, full_c = before['time1'], before['time2']
+            rest = not (before['up_on'] or before['down_on'] or before['delayed']) and before['task_state'] == 0
+            if (rest and st0['task_state'] != 0 and known(before['pos']) and known(before['tilt']) and before['step'] == 0
+                    and 500 <= full_o <= 600000 and 500 <= full_c <= 600000 and tilt_ms < min(full_o, full_c) and before['aot'] == 0 and before['act'] == 0):
+                tpos, ttilt = st0['task_pos'], st0['task_tilt']
+                fullm = max(full_o, full_c)
+                tau = max([x[0][1][0] for x in tl[i0 + 1:] if x[0][0] == 'CB'] or [0])
+                km = 110 if not (0 <= margin <= 100) else margin
+                travel = (abs(before['pos'] - 100 - tpos * 100) * fullm * 1000 // 10000) if tpos != -1 else 0
+                # position run (tilting first) + one reversal + tilt run, each with its start delay; end-stop margin; callback granularity
+                allow = travel + 3 * tilt_ms * 1000 + 1000 * (fullm * km // 100) + 2 * 1_001_000 + 8 * tau + 20_080
+                t_last = tl[-1][1]; last = tl[-1][3]
+                if t_last - t_task > allow:
+                    if last['up_on'] or last['down_on'] or last['delayed'] or last['task_state'] != 0:
+                        v.append('facade-blind task (%d, %d) (type %d) from (%d, %d): after %d us (allowed %d) the outputs are %d%d, trigger pending %d, task state %d, position %d, tilt %d' %
+                                 (tpos, ttilt, ttype, before['pos'], before['tilt'], t_last - t_task, allow, last['up_on'], last['down_on'], last['delayed'], last['task_state'], last['pos'], last['tilt']))
+                    else:
+                        if ttilt != -1 and abs(rep(last['tilt']) - ttilt) > 1:
+                            v.append('facade-blind task (%d, %d) (type %d) from (%d, %d) ended at tilt %d (reported %d): more than one point off [tau=%d full=%d ignored=0]' %
+                                     (tpos, ttilt, ttype, before['pos'], before['tilt'], last['tilt'], rep(last['tilt']), tau, tilt_ms))
+                        ptol = 1 + (100 * tilt_ms + fullm - 1) // fullm
+                        if tpos != -1 and abs(rep(last['pos']) - tpos) > ptol:
+                            v.append('facade-blind task (%d, %d) (type %d) from (%d, %d) ended at position %d (reported %d): more than %d points (one + tilting travel) off [tau=%d full=%d ignored=0]' %
+                                     (tpos, ttilt, ttype, before['pos'], before['tilt'], last['pos'], rep(last['pos']), ptol, tau, min(full_o, full_c)))
         return v[:4]
 
     def nontrivial(self, case, io):
@@ -309,7 +372,7 @@ class C10(F.PropCheck):
         import re
         m = re.search(r'\[tau=(\d+) full=(\d+) ignored=(\d)\]', what)
         if m and m.group(3) == '1': return 'retarget-to-current-position-ignored'
-        if m and 'more than one point off' in what:
+        if m and ('more than one point off' in what or 'tilting travel) off' in what):
             tau, full = int(m.group(1)), int(m.group(2))
             # one callback interval is worth more than half a point of travel: 10000 * tau / (full * 1000) > 50
             if tau * 10 > 50 * full: return 'task-tick-coarser-than-half-point'
